@@ -21,7 +21,7 @@ from gallia.services.uds.ecu import ECU
 from gallia.transports.tcp import TCPLinesTransport
 
 T = 1.0
-SCRIPTS = ["imm", "imm", "imm", "slow", "pending", "pending_long", "never", "late", "err_write", "err_read"]
+SCRIPTS = ["imm", "imm", "imm", "slow", "pending", "pending_long", "never", "late", "err_write", "err_read", "neg", "late_neg"]
 
 
 def tag_for(did: int) -> bytes:
@@ -63,12 +63,15 @@ class Responder:
             self.tp_n += 1
             ok = b"\x7e\x00"
             pend = b"\x7f\x3e\x78"
-        elif data[:1] == b"\x22" and len(data) == 3:
+        elif data[:1] in (b"\x22", b"\x2e") and len(data) >= 3:
+            # ReadDataByIdentifier, or (callers of another service) WriteDataByIdentifier: the positive reply echoes the
+            # identifier; a negative one names the service and nothing else
             did = (data[1] << 8) | data[2]
             lst = self.scripts.get(did) or ["imm"]
             script = lst.pop(0) if len(lst) > 1 else lst[0]
-            ok = bytes([0x62, data[1], data[2]]) + tag_for(did)
-            pend = b"\x7f\x22\x78"
+            ok = bytes([0x62, data[1], data[2]]) + tag_for(did) if data[0] == 0x22 else bytes([0x6E, data[1], data[2]])
+            pend = bytes([0x7F, data[0], 0x78])
+            neg = bytes([0x7F, data[0], 0x31])
         else:
             script = "imm"
             ok = bytes([data[0] + 0x40]) + data[1:2]
@@ -88,6 +91,17 @@ class Responder:
             pass
         elif script == "late":
             loop.call_later(T + 0.25, feed, ok)
+        elif script == "neg":
+            loop.call_later(0.003, feed, neg)
+        elif script == "late_neg":
+            loop.call_later(T + 0.25, feed, neg)
+        elif script == "pending_forever":
+            # an ECU that never gets beyond responsePending: the client gives up after its limit and lets the others in
+            # (stops after 200 s with the answer; the client's own limit - 120 pending replies - is reached after 36 s)
+            for k_ in range(1, 667):
+                loop.call_later(0.3 * k_, feed, pend)
+            loop.call_later(0.3 * 667, feed, ok)
+            self.forever_started = getattr(self, "forever_started", []) + [loop.time()]
         elif script == "err_write":
             if raise_write:
                 raise ConnectionResetError(104, "Connection reset by peer")
@@ -102,7 +116,7 @@ class C05(Check):
     rule = (
         "2-5 concurrent users of one ECU client: callers with 1-4 requests each (unique data identifier per request, reply echoes it with a tag), optionally the "
         "cyclic tester-present worker (interval 0.05-1 s), a reconnect() caller, a wait_for_ecu() caller; arrival offsets 0-2 s; reply script per transmission "
-        "{immediate, slow, responsePending x2 / x7 then final, never, late (after the timeout), connection error on write / on read}; max_retry 0-2; one optional "
+        "{immediate, slow, responsePending x2 / x7 then final, responsePending for ever, never, late (after the timeout), negative, late negative, connection error on write / on read}; 30 % of the requests use another service (WriteDataByIdentifier), so that a negative reply can be told apart by the service it names; max_retry 0-2; one optional "
         "cancellation of a caller at a virtual instant; 25 % of the runs on a real transport over SimNet (tcp-lines, HSFZ or DoIP with a gateway model: each adds its own mutex and reader task). non-trivial = at least two tasks wanted the "
         "client at the same time; distinct = sequence of (actor class, event class) on the wire."
     )
@@ -130,13 +144,22 @@ class C05(Check):
         plan["stack"] = rng.choice(["tcp-lines", "hsfz", "doip"]) if rng.random() < 0.25 else None
         n = rng.choice([1, 2, 2, 3, 4] if tier == "quick" else [2, 3, 4, 5])
         callers = []
+        any_forever = False
         benign = rng.random() < 0.3
         for c in range(n):
             reqs = []
             for j in range(rng.choice([1, 2, 3, 4])):
+                forever = False
                 mr = rng.choice([0, 0, 1, 2])
                 scripts = [rng.choice(["imm", "slow"] if benign else SCRIPTS) for _ in range(mr + 1)]
-                reqs.append({"did": 0x1000 * (c + 1) + j, "scripts": scripts, "max_retry": mr, "think": rng.choice([0.0, 0.0, 0.01, 0.3]), "raw": rng.random() < 0.35})
+                if not benign and rng.random() < 0.01 and not any_forever:
+                    any_forever = True
+                    # (on a service of its own, so that the stale pendings cannot be mistaken by the final probes)
+                    scripts = ["pending_forever"]
+                    mr = 0
+                    forever = True
+                reqs.append({"did": 0x1000 * (c + 1) + j, "scripts": scripts, "max_retry": mr, "think": rng.choice([0.0, 0.0, 0.01, 0.3]), "raw": rng.random() < 0.35,
+                             "sid": 0x2E if rng.random() < 0.3 or forever else 0x22})
             callers.append({"start": rng.choice([0.0, 0.0, 0.001, 0.05, 0.5, 1.1, 2.0]), "reqs": reqs})
         plan["callers"] = callers
         plan["tp"] = rng.choice([None, 0.05, 0.2, 1.0])
@@ -172,6 +195,7 @@ class C05(Check):
             rec = Recorder(loop)
             holder["rec"] = rec
             resp = Responder(loop, plan, rec)
+            holder["resp"] = resp
             # observation points at the public API: one request() / reconnect() call = one owner interval
             orig_request = UDSClient.request
             orig_reconnect = UDSClient.reconnect
@@ -296,10 +320,16 @@ class C05(Check):
                 await asyncio.sleep(c["start"])
                 for r in c["reqs"]:
                     did = r["did"]
-                    out: dict[str, Any] = {"caller": k, "did": did}
+                    out: dict[str, Any] = {"caller": k, "did": did, "sid": r.get("sid", 0x22), "t_begin": loop.time()}
                     results.append(out)
                     try:
-                        if r.get("raw"):
+                        if r.get("sid", 0x22) == 0x2E:
+                            # a caller of another service: a reply naming service 0x22 can never be its own
+                            if r.get("raw"):
+                                resp_ = await ecu.send_raw(bytes([0x2E, did >> 8, did & 0xFF, 0xAB]), UDSRequestConfig(max_retry=r["max_retry"]))
+                            else:
+                                resp_ = await ecu.request(service.WriteDataByIdentifierRequest(did, b"\xab"), UDSRequestConfig(max_retry=r["max_retry"]))
+                        elif r.get("raw"):
                             # scanner style: the same PDU wrapped in a RawRequest (ECU.send_raw)
                             resp_ = await ecu.send_raw(bytes([0x22, did >> 8, did & 0xFF]), UDSRequestConfig(max_retry=r["max_retry"]))
                         else:
@@ -312,6 +342,7 @@ class C05(Check):
                     except Exception as e:  # noqa: BLE001
                         out["out"] = "raise"
                         out["exc"] = type(e).__name__
+                    out["t_end"] = loop.time()
                     if r["think"]:
                         await asyncio.sleep(r["think"])
 
@@ -427,11 +458,26 @@ class C05(Check):
                     violation(res, "C05/exclusion", f"C05/exclusion:{kind}-by-{a_cls}-during-exchange-of-{o_cls}:{what}",
                               f"t={t:.4f}: task {actor} issued transport {kind} while the exchange of task {owner} was still in progress")
                     break
+        # ---- an ECU stuck in responsePending: the caller gives up at the client's limit (120 pending replies, 0.3 s apart
+        # here) and releases the client; it does not keep the others waiting for as long as the ECU goes on
+        if getattr(holder.get("resp"), "forever_started", None):
+            for r in results:
+                if r.get("t_end") is None or r.get("sid") != 0x2E:
+                    continue
+                n_pend = sum(1 for e in ev if e[3] == "read" and e[2] == f"c{r['caller']}" and r["t_begin"] - 1e-9 <= e[1] <= r["t_end"] + 1e-9
+                             and str(e[4].get("data")) in ("7f2e78", "b'\\x7f.x'"))
+                if n_pend > 125:
+                    violation(res, "C05/progress", "C05/progress:stuck-in-pending-beyond-the-limit",
+                              f"caller {r['caller']} read {n_pend} responsePending replies in one request ({r['t_end'] - r['t_begin']:.1f} s) and kept the client all that time (the client's limit is 120)")
         # ---- attribution
         for r in results:
             if r.get("out") == "return":
-                want = bytes([0x62, r["did"] >> 8, r["did"] & 0xFF]) + tag_for(r["did"])
-                if r["pdu"] != want:
+                sid_ = r.get("sid", 0x22)
+                want = bytes([0x62, r["did"] >> 8, r["did"] & 0xFF]) + tag_for(r["did"]) if sid_ == 0x22 else bytes([0x6E, r["did"] >> 8, r["did"] & 0xFF])
+                # a negative response naming the caller's own service is a genuine reply to any request of that service
+                # (no sequence numbers in UDS): not evidence of mis-attribution.  One naming ANOTHER service is.
+                own_negative = len(r["pdu"]) == 3 and r["pdu"][0] == 0x7F and r["pdu"][1] == sid_
+                if r["pdu"] != want and not own_negative:
                     violation(res, "C05/attribution", "C05/attribution:foreign-reply-returned",
                               f"caller {r['caller']} asked for {r['did']:#06x} and was handed {r['pdu'].hex()} (expected {want.hex()})")
                     break
